@@ -1,6 +1,7 @@
 // Chained-file generator + ground truth + helpers shared by the vorbisfile properties (C07-C10, C12, C17, C19, C20).
 #pragma once
 #include "common.h"
+#include "vgen.h"
 
 struct GT {                       // ground truth: each link decoded on its own through the packet API
   std::vector<PCM> pcm;           // full-rate
@@ -14,7 +15,7 @@ struct GT {                       // ground truth: each link decoded on its own 
   }
 };
 
-struct ChainOpts { int maxlinks = 4; int64_t maxN = 30000; bool allow_zero = true; int maxch = 6; bool comments = true; bool multiplex = false; bool half = false; bool even_interior = false; };
+struct ChainOpts { int maxlinks = 4; int64_t maxN = 30000; bool allow_zero = true; int maxch = 6; bool comments = true; bool multiplex = false; bool half = false; bool even_interior = false; int vgen_pct = 0; int vgen_min_bslog = 6; int vgen_64_pct = 25; };
 
 static const long kVfRates[] = {44100, 8000, 22050, 16000, 11025, 48000, 32000, 12000, 24000, 96000};
 
@@ -52,31 +53,51 @@ static inline bool gen_chain(Tape &t, Report &r, const ChainOpts &o, Chain &c, G
   std::vector<Layout> lays;
   int32_t serial0 = (int32_t)t.raw();
   for (int i = 0; i < k; i++) {
-    LinkMeta m; m.cfg = gen_link_cfg(t, o.maxch); m.sig = Signal::gen(t);
+    LinkMeta m; LStream s; int64_t N = 0;
+    // serial numbers: distinct; adjacent, negative and large values all occur.  (Drawn after the encoder set-up on the encoder path:
+    // the order of draws is kept as it was when the older replay files were saved.)
+    auto draw_serial = [&]() {
+      int sstyle = t.below(3);
+      s.serial = sstyle == 0 ? serial0 + i : sstyle == 1 ? (int32_t)(serial0 ^ (0x9e3779b9u * (uint32_t)(i + 1))) : (int32_t)(0x7fffffff - i * 7 - (serial0 & 0xff));
+      for (auto &p : c.links) if (p.serial == s.serial) s.serial = (int32_t)(p.serial + 1000 + i);
+    };
+    bool synthetic = o.vgen_pct && g_tape_gen >= 2 && (int)t.below(100) < o.vgen_pct;
+    if (synthetic) {
+      draw_serial();
+      // a link synthesised by vgen: any block sizes from 64 up, any channel count, structure the bundled encoder never emits
+      vg::GenOpts go; go.simple = true; go.maxch = o.maxch; go.min_bslog = o.vgen_min_bslog; go.max_bslog = t.chance(1, 8) ? 12 : 10; if ((int)t.below(100) < o.vgen_64_pct) go.force_bs0log = 6;
+      int npk = 2 + (int)t.below(t.chance(1, 3) ? 60 : 14); vg::GenStream gs; int32_t ser = s.serial; vg::gen_stream(t, go, npk, gs, ser);
+      if (!gs.ok) return r.harness("vgen link: %s", gs.err.c_str());
+      s = gs.ls; s.serial = ser;
+      if (t.chance(1, 2) && gs.contrib.back() > 0) { int trim = (int)t.below((uint32_t)gs.contrib.back() + 1); s.audio.back().granulepos -= trim; s.nsamples -= trim; }
+      if (o.even_interior && i + 1 < k && (s.nsamples & 1)) { s.audio.back().granulepos -= 1; s.nsamples -= 1; }
+      N = s.nsamples; m.cfg.channels = s.channels; m.cfg.rate = s.rate; m.cfg.mode = 9; m.comments.clear();
+      // comments written by vgen
+      { const std::vector<uint8_t> &cp = s.hdr[1].data; size_t o2 = 7; auto u32 = [&]() { uint32_t v = cp[o2] | (cp[o2 + 1] << 8) | (cp[o2 + 2] << 16) | ((uint32_t)cp[o2 + 3] << 24); o2 += 4; return v; }; uint32_t vl = u32(); o2 += vl; uint32_t nc = u32(); for (uint32_t q = 0; q < nc; q++) { uint32_t l = u32(); m.comments.emplace_back((const char *)&cp[o2], l); o2 += l; } }
+      r.label("synthetic (vgen) link"); if (s.bs0 == 64) r.label("link with 64-sample short blocks");
+    } else {
+    m.cfg = gen_link_cfg(t, o.maxch); m.sig = Signal::gen(t);
     if (m.sig.kind == 0 && t.chance(3, 4)) m.sig.kind = 4;   // prefer signals with content: silence makes all positions look alike
     if (m.sig.kind == 1 || m.sig.kind == 7) m.sig.kind = 2;
     Encoder e; int sr = e.setup(m.cfg);
     if (sr != 0) { m.cfg = EncCfg(); m.cfg.channels = 1 + (i & 1); m.cfg.rate = 44100; m.cfg.quality = 0.3f; e.clear(); sr = e.setup(m.cfg); r.label("link cfg fallback"); }
     if (sr != 0) return r.harness("fallback encoder configuration refused: %d", sr);
-    LStream s;
-    // serial numbers: distinct; adjacent, negative and large values all occur
-    int sstyle = t.below(3);
-    s.serial = sstyle == 0 ? serial0 + i : sstyle == 1 ? (int32_t)(serial0 ^ (0x9e3779b9u * (uint32_t)(i + 1))) : (int32_t)(0x7fffffff - i * 7 - (serial0 & 0xff));
-    for (auto &p : c.links) if (p.serial == s.serial) s.serial = (int32_t)(p.serial + 1000 + i);
+    draw_serial();
     if (o.comments) { int nc = t.below(4); for (int j = 0; j < nc; j++) m.comments.push_back(sfmt("TAG%d=link%d value %u", j, i, t.below(1000))); }
     if (e.start(s, &m.comments) != 0) return r.harness("encoder start failed: %s", e.err.c_str());
-    int64_t N = gen_link_N(t, s.bs0, s.bs1, o);
+    N = gen_link_N(t, s.bs0, s.bs1, o);
     if (o.even_interior && i + 1 < k) N &= ~(int64_t)1;
     std::vector<int> pieces; if (N) pieces.push_back((int)N); std::vector<char> da; std::string err;
     if (enc_feed(e, m.cfg.channels, m.sig, N, pieces, da, s, err) != 0) return r.harness("encode failed: %s", err.c_str());
+    }
     m.lay = Layout::gen(t); lays.push_back(m.lay);
     DecodeResult d;
     if (!decode_packets(s, d)) return r.harness("link %d does not decode at packet level", i);
     if (d.total() != N) return r.harness("link %d: packet-level decode gives %lld samples for N=%lld (C04 territory)", i, (long long)d.total(), (long long)N);
     if (o.half) {
       DecodeResult dh;
-      if (!decode_packets(s, dh, true)) return r.harness("link %d does not decode at half rate at packet level", i);
-      g.half.push_back(dh.pcm);
+      if (s.bs0 <= 64) g.half.push_back(PCM());     // half rate is refused for 64-sample blocks
+      else { if (!decode_packets(s, dh, true)) return r.harness("link %d does not decode at half rate at packet level", i); g.half.push_back(dh.pcm); }
     }
     g.pcm.push_back(d.pcm); g.start.push_back(g.total); g.len.push_back(N); g.total += N;
     desc += sfmt("L%d{ch=%d rate=%ld q=%.1f m=%d bs=%d/%d N=%lld pk=%zu ser=%d sig=%d/%g %s} ", i, m.cfg.channels, m.cfg.rate, m.cfg.quality, m.cfg.mode, s.bs0, s.bs1, (long long)N, s.audio.size(), s.serial, m.sig.kind, m.sig.amp, m.lay.desc().c_str());
